@@ -254,6 +254,7 @@ func (e *Engine) verifyUnit(fn *ssa.Function, classes map[string]bool) *UnitResu
 		u.addrIds = map[string]int{}
 		u.mapWFDone = map[string]bool{}
 		u.reachCache = map[string]bool{}
+		u.sumDone = map[string]bool{}
 		u.oblCount = map[string]int{}
 		u.sinks = nil
 		u.inlineStack = nil
@@ -319,6 +320,7 @@ func (u *Unit) runRoot() {
 		fr.vals[fv] = v
 		u.assume(st, not(eq(v.T, "0")))
 	}
+	u.entry = st // provisional: lets baseEnv read captured cells; replaced by a snapshot once the assumptions are in
 	env := fr.baseEnv()
 	lockFree := true
 	if u.spec != nil {
